@@ -410,3 +410,48 @@ def crt_cases(draw):
             'order': draw(st.lists(st.integers(0, 5), max_size=8)),
             'nthreads': draw(st.integers(1, 2)), 'end': end,
             'faults': faults, 'sched': draw(schedules())}
+
+
+# ---------------------------------------------------------------- legacy
+@st.composite
+def legacy_cases(draw, ops=('upload', 'download'), with_faults=False):
+    thr = draw(st.integers(1, 40))
+    chunk = draw(st.integers(1, 16))
+    op = draw(st.sampled_from(list(ops)))
+    cand = sorted({0, 1, thr - 1, thr, thr + 1, chunk, 2 * chunk - 1,
+                   2 * chunk, 2 * chunk + 1, 3 * chunk + 1} - {-1})
+    size = draw(st.one_of(st.sampled_from(cand), st.integers(0, 5 * chunk + 2),
+                          st.integers(thr, thr + 4 * chunk)))
+    case = {'kind': 'legacy', 'op': op, 'size': size, 'threshold': thr,
+            'chunk': chunk, 'conc': draw(st.integers(1, 3)),
+            'attempts': draw(st.integers(1, 3)),
+            'preexist': draw(st.sampled_from([None, None, 0, 7])),
+            'extra': {}, 'faults': [], 'scripts': {}}
+    if op == 'upload':
+        case['scripts']['body'] = draw(st.lists(st.fixed_dictionaries({
+            'preflight': st.booleans(), 'sign': st.booleans(),
+            'blocks': st.lists(st.integers(1, 16), max_size=3),
+            'rewinds': st.lists(st.integers(0, 30), max_size=2),
+            'chunked': st.just(0)}), max_size=3))
+    else:
+        case['scripts']['stream'] = draw(st.lists(st.fixed_dictionaries({
+            'short': st.lists(st.integers(0, 8), max_size=3),
+            'fault_at': st.one_of(st.none(), st.none(), st.integers(0, 30)),
+            'fault': st.sampled_from(['retryable:0', 'retryable:1',
+                                      'retryable:3', 'retryable:4'])}),
+            max_size=4))
+    if with_faults:
+        if op == 'upload':
+            sites = ['s3.create_multipart_upload', 's3.upload_part',
+                     's3.upload_part', 's3.complete_multipart_upload',
+                     's3.put_object', 'fs.read']
+        else:
+            sites = ['s3.head_object', 's3.get_object', 'fs.open', 'fs.write',
+                     'fs.rename', 'stream.read']
+        case['faults'] = draw(st.lists(st.builds(
+            lambda s, n, w: {'site': s, 'nth': n, 'exc': 'injected',
+                             'when': w if s.startswith('s3.') else 'before'},
+            st.sampled_from(sites), st.sampled_from([0, 0, 1, 2]),
+            st.sampled_from(['before', 'before', 'after'])),
+            min_size=1, max_size=2))
+    return case
